@@ -122,10 +122,19 @@ class Endpoint:
     def connect(self, factory):
         self.attempts += 1
         clock = self.world.clock
-        d = defer.Deferred()
+        state = {"cancelled": False}
+
+        def cancel(_d):
+            # what a real endpoint does when ClientService cancels a pending attempt (stopService() while connecting):
+            # the attempt is aborted and no protocol is ever built for it
+            state["cancelled"] = True
+
+        d = defer.Deferred(cancel)
         mode = self.mode
 
         def attempt():
+            if state["cancelled"]:
+                return
             if mode == "refuse":
                 d.errback(Failure(ConnectionRefusedError()))
                 return
